@@ -200,7 +200,7 @@ func init() {
 		Level:   "other",
 		Explanation: "Path-list kernel of the manifest: manifest.ScanPaths and the sender's buildPathResolver are executed symbolically on three plain files whose base names are symbolic byte strings (lengths 1,1,1|3 quick; 1-3 thorough) over a filesystem model; filepath.Abs/Base/ToSlash run from the standard library's SSA, sort.Slice is modelled with the real less function. Asserted: every file listed once, relative paths pairwise distinct and sorted, counts and totals add up, each source file is the resolution of exactly one item of the same size, a second scan yields the same manifest.",
 		Rule:        "assertion sites: vAssert lines of vC13Paths",
-		Assumptions: []string{"plain files only: directory walks, symlinks, devices, unicode normalisation and mtime changes are outside this check", "names contain no '/' and no NUL and are not '.' or '..'", "item ids (FNV of a formatted string) are not compared"},
+		Assumptions: []string{"plain files plus one small concrete directory tree (filepath.WalkDir modelled over the filesystem model: pre-order, lexical order per directory); symlinks, devices, unicode normalisation and mtime changes are outside this check", "names contain no '/' and no NUL and are not '.' or '..'", "item ids (FNV of a formatted string) are not compared"},
 		Bounds:      func(tier string) string { return "3 paths, base names of 1..3 arbitrary bytes" },
 		Jobs: func(tier string, prog *ssa.Program) []*Job {
 			j := hjp("internal/app", "C13.paths", "H_C13_paths", "ScanPaths vs buildPathResolver on symbolic base names")
@@ -208,7 +208,8 @@ func init() {
 				j = hjp("internal/app", "C13.paths", "H_C13_paths_deep", "ScanPaths vs buildPathResolver on symbolic base names (lengths 1-3)")
 			}
 			j.Workers = 16
-			return []*Job{j}
+			d := hjp("internal/app", "C13.dir", "H_C13_dir", "a shared directory with a sub-directory and a sibling whose name extends the sub-directory's")
+			return []*Job{j, d}
 		},
 	})
 
